@@ -235,6 +235,7 @@ impl AnimationManager {
 
         let mut calc_prob = 0u16;
         let mut next_index = main_idx;
+        let mut visited = 1usize;
 
         loop {
             let seq = &self.sequences[next_index];
@@ -248,6 +249,13 @@ impl AnimationManager {
             if potential_next >= self.sequences.len() {
                 break;
             }
+
+            // A variation list visits every sequence at most once: a longer walk is
+            // in a variation_next cycle (which never ends when its frequencies are 0)
+            if visited >= self.sequences.len() {
+                break;
+            }
+            visited += 1;
 
             // Skip current animation in probability calculation
             if Some(potential_next) != self.current_animation.animation_index {
